@@ -230,6 +230,22 @@ func runTransformCase(r *vcommon.Report, i int, rng *rand.Rand) {
 	if kind != "hide-obsolete" && rng.IntN(3) == 0 {
 		tr.HideObsolete = true // what pebble does for every read above the file's seqnums
 	}
+	if i%25 == 7 { // chosen by case index so that the other cases keep their random streams
+		// Dedicated sub-family: a row-format table WITHOUT point keys (the row
+		// writer still emits one empty data block) read with a long synthetic
+		// prefix, mostly with the cockroach comparer (which, unlike bytes
+		// comparison, cannot digest a fabricated key). Regression guard for the
+		// empty-block SeekLT defect found by this monitor.
+		kind = "prefix/no-points-rowblk"
+		if rng.IntN(4) != 0 {
+			ks = sstmodel.Crdb
+		}
+		sh = sstmodel.Shape{NoPoints: true, ForceRangeDels: true, MaxFormat: sstable.TableFormatPebblev4}
+		tr = sstmodel.Transform{SyntheticPrefix: make([]byte, 8+rng.IntN(60)), HideObsolete: rng.IntN(2) == 0}
+		for k := range tr.SyntheticPrefix {
+			tr.SyntheticPrefix[k] = byte('a' + rng.IntN(26))
+		}
+	}
 	if sh.MaxEntries == 0 {
 		sh.MaxEntries = 1500
 	}
